@@ -64,6 +64,14 @@ def setup_factory(ctx, env, registry):
     return f
 
 
+def require(ctx, build, sig, msg):
+    """ctx.require(build(), ...) evaluated outside the tracer.  Under the tracer CrossHair's isinstance() reports a
+    SymbolicBool as `bool`, so vf.logic's combinators and BaseCtx.require would branch on it (sound, but one fork per
+    operand instead of one query); outside the tracer they build the z3 term and pose the single query."""
+    with ctx.untraced():
+        ctx.require(build(), sig, msg)
+
+
 # ---- requirements -----------------------------------------------------------------------------------------------
 def requirements(mode_value, plan_kinds=None):
     """Every requirement combination the public API of that operation mode can pass to _get_engine:
